@@ -19,6 +19,9 @@ class CallMixin:
         names = self.reg.exc_arg_names.get(cls, [])
         for i, v in enumerate(args):
             st.set_fld(names[i] if i < len(names) else f"arg{i}", a, v.t)
+        st.trace.append(("new_exc", cls, a))
+        if self.spec is not None and hasattr(self.spec, "on_new_exception") and not getattr(self, "_dry", 0):
+            self.spec.on_new_exception(self, st, cls, a, args)
         return SV(vref(a), TEXC)
 
     def raise_new(self, st: State, cls: str, args=()) -> Res:
